@@ -155,3 +155,44 @@ impl Universe {
         self.methods.iter().chain(self.methods_other.iter())
     }
 }
+
+/// Query universes of a file: one for the whole file when it is small; for files of more than 40 lines one
+/// universe per class block (the block's own names, near misses and constants) - every class and every entry
+/// of the file is still queried, but names of one block are not crossed with the names of all others.
+pub fn universes_for(lines: &[Line], wide: bool) -> Vec<Universe> {
+    if lines.len() <= 40 {
+        return vec![Universe::from_ast(lines, wide)];
+    }
+    let mut out = Vec::new();
+    let mut start: Option<usize> = None;
+    let mut cut = |s: usize, e: usize, out: &mut Vec<Universe>| {
+        // long blocks: additionally split the entries into windows of 48 lines (the class line is kept in each)
+        if e - s <= 49 {
+            out.push(Universe::from_ast(&lines[s..e], wide));
+        } else {
+            let mut i = s + 1;
+            while i < e {
+                let j = (i + 48).min(e);
+                let mut part = vec![lines[s]];
+                part.extend_from_slice(&lines[i..j]);
+                out.push(Universe::from_ast(&part, wide));
+                i = j;
+            }
+        }
+    };
+    for (i, l) in lines.iter().enumerate() {
+        if matches!(l, Line::Class { .. }) {
+            if let Some(s) = start {
+                cut(s, i, &mut out);
+            }
+            start = Some(i);
+        }
+    }
+    if let Some(s) = start {
+        cut(s, lines.len(), &mut out);
+    }
+    if out.is_empty() {
+        out.push(Universe::from_ast(lines, wide));
+    }
+    out
+}
